@@ -73,6 +73,47 @@ def scalar_config(rng, want_ser=None):
     return cfg
 
 
+def k2_tables(run):
+    """The model's constant tables vs the constants of /repo's SOURCE, re-derived on every run (fail closed when a
+    constant cannot be found any more)."""
+    import ast as _ast
+    import inspect as _inspect
+
+    t = model.call(ENGINE, [Sym("tables")])
+    builtin, reserved, item7, locals_, union_unset = t
+    try:
+        from ariadne_codegen.client_generators import arguments as A, client as Cl, constants as K
+        from graphql import build_schema as _bs
+
+        src = {
+            "INPUT_SCALARS_MAP (without Upload)": ({k: v for k, v in K.INPUT_SCALARS_MAP.items() if k != "Upload"},
+                                                   {k: v for k, v in builtin}),
+            "reserved argument names": (A.ArgumentsGenerator(schema=_bs("type Query { a: Int }"))._get_reserved_argument_names(),
+                                        set(reserved)),
+            "item variable": (f"{A.ITEM_VARIABLE_PREFIX}7", item7),
+            "Union[..., UnsetType] rendering": (f"{K.UNION}[{K.OPTIONAL}[{K.LIST}[T]], {K.UNSET_TYPE_NAME}]", union_unset),
+            "kwargs / UNSET names": ({K.KWARGS_NAMES, K.UNSET_NAME} <= set(reserved), True),
+        }
+        import textwrap as _tw
+
+        tree = _ast.parse(_tw.dedent(_inspect.getsource(Cl.ClientGenerator.__init__)))
+        found = {}
+        for node in _ast.walk(tree):
+            if isinstance(node, _ast.Assign) and isinstance(node.targets[0], _ast.Attribute) and isinstance(node.value, _ast.Constant):
+                found[node.targets[0].attr] = node.value.value
+        src["method locals"] = ([found[k] for k in ("_operation_str_variable", "_variables_dict_variable",
+                                                    "_response_variable", "_data_variable")], list(locals_))
+        src["gql function name"] = (found["_gql_func_name"] in set(reserved), True)
+    except Exception as exc:  # noqa
+        run.broken("K2 tables", f"constants of /repo could not be derived: {type(exc).__name__}: {exc}")
+        return
+    for what, (real, mod) in src.items():
+        run.count()
+        run.dist("k2_tables", what)
+        if real != mod:
+            run.violation(f"K2 table {what}: /repo has {real!r}, the model {mod!r}", {"table": what}, found_input=False)
+
+
 def make_scenarios(ctx):
     base = ctx.seed * 100000 + 30000
     q = not ctx.thorough
@@ -110,7 +151,21 @@ def make_scenarios(ctx):
             else:
                 sc.config.pop("scalars", None)
             out.append(sc)
-    return out + corpus_scenarios() + body_name_scenarios(ctx)
+    return out + corpus_scenarios() + body_name_scenarios(ctx) + [ser_name_scenario()]
+
+
+def ser_name_scenario():
+    """Replay of C03_names_refuted_serialize_named_query / _item on the real code: serialize FUNCTIONS that are
+    themselves called like the method's `query` local or like a comprehension variable."""
+    sdl = "scalar A\nscalar B\ntype Query { f(a: A, b: [B!], c: B): Int }\n"
+    q = ("query SerQuery($a: A!) { f(a: $a) }\n\nquery SerItem($b: [B!]) { f(b: $b) }\n\n"
+         "query SerItemNoList($c: B!) { f(c: $c) }\n")
+    extra = BODY_VSCAL_EXTRA + '\nquery = _ser("query")\n_item0 = _ser("_item0")\n'
+    return scenario.Scenario(seed=920000, sdl=sdl, queries=q,
+                             config={"convert_to_snake_case": True, "async_client": False,
+                                     "scalars": {"A": {"type": "Any", "serialize": "vscal.query"},
+                                                 "B": {"type": "Any", "serialize": "vscal._item0"}}},
+                             features=("corpus:serialize-names",), files={"vscal.py": argenc.VSCAL + extra})
 
 
 # names the body of a generated method (or client.py at module level) can refer to; a variable called like one of them
@@ -276,6 +331,7 @@ def run(ctx):
         "schema defaults enter the model as already-coerced values (graphql-core value_from_ast)",
         "Float values are non-integral lexemes; Upload variables are excluded (C11)",
     ]
+    k2_tables(run)
     scs = make_scenarios(ctx)
     rng = ctx.rng
     cmds, slots = [], []
@@ -448,7 +504,8 @@ def check_scenario(ctx, g, plan, rows, genres, stats):
             run.violation(f"model refuses variables of {op.name.value} which the generator accepted",
                           replay_of(g, op), found_input=False)
             continue
-        _ok, gen, sig_ok, names_ok, inputs_ok, f21_ok = gr
+        _ok, gen, sig_ok, names_ok, inputs_ok, f21_ok, ser_names_ok = gr
+        ser_names_ok = ser_names_ok == "t"
         params, dct, locs = gen
         sig_ok, names_ok, inputs_ok = sig_ok == "t", names_ok == "t", inputs_ok == "t"
         f21_shape = f21_ok == "f"      # informational: F21 is fixed for input fields (/repo 1ef155d); no routing
@@ -489,7 +546,7 @@ def check_scenario(ctx, g, plan, rows, genres, stats):
             continue
         # ---- K3 + behavioural K1 per call
         for c in cases:
-            check_call(ctx, g, op, vds, c, names_ok, inputs_ok, f10_bad, stats, f21_ok)
+            check_call(ctx, g, op, vds, c, names_ok, inputs_ok, f10_bad, stats, f21_ok, ser_names_ok)
     if not ld.get("ok"):
         msg = json.dumps(ld.get("modules"))[:400]
         client_err = (ld.get("modules") or {}).get("client", "ok") != "ok" or "client" in msg
@@ -528,7 +585,7 @@ def classify(names_ok, inputs_ok, f10_bad, involved, f21=False):
     return None
 
 
-def check_call(ctx, g, op, vds, c, names_ok, inputs_ok, f10_bad, stats, f21_ok=True):
+def check_call(ctx, g, op, vds, c, names_ok, inputs_ok, f10_bad, stats, f21_ok=True, ser_names_ok=True):
     run = ctx.run
     r = c.real or {}
     stats["k3_calls"] += 1
@@ -557,6 +614,8 @@ def check_call(ctx, g, op, vds, c, names_ok, inputs_ok, f10_bad, stats, f21_ok=T
             run.dist("k1_suppressed", "count")
             return
         cls = classify(names_ok, inputs_ok, f10_bad, involved, f21=(not f21_ok) and model_agrees)
+        if not ser_names_ok:
+            cls = "F33-serialize-function-named-like-local"
         rep = replay_of(g, op, c)
         if cls:
             run.finding(cls, what, rep)
